@@ -71,7 +71,9 @@ def run(ctx, replay):
                 "camelCase tag key) x {no inline, inline map, inline struct, inline struct repeating outer keys with its own catch-all}; inputs = every "
                 "document over the type's primary keys, aliases, two unknown keys and the empty key (absent / well-typed marker value / "
                 "null), on zero-valued and pre-filled destinations. Quick tier replays a seeded sample of 40 000 of the (type, document) "
-                "pairs TLC enumerated; thorough replays 250 000 and model-checks 3-field types over the 7 interacting shapes. Non-trivial = non-empty document.",
+                "pairs TLC enumerated; thorough replays 250 000 and model-checks 3-field types over the 7 interacting shapes. Also keys spelled like the "
+                "catch-all field's own lower-cased name, an integer for a float field, pre-filled pointer fields, and 192 WIDE cases (all 15 fields and a "
+                "catch-all at once, nearly every key present), always replayed. Non-trivial = non-empty document.",
         "exhaustive": thorough,
         "trace_events_rejected": len(bad),
     }
